@@ -184,7 +184,7 @@ func checkC18(c *Ctx, r *Report) {
 		"W-BITS: DecodeAudioSpecificConfig is executed on a symbolic bit stream under every configuration (object types, all 16 frequency indices incl. the 24-bit escape, SBR extension), " +
 		"AudioSpecificConfig.Encode is executed on the decoded value and compared bit by bit with what was read; " +
 		"(W-TRUNC) in mp4 and aac no value narrowed to 8/16 bits for one destination is widened again and used in place of the original (sampling frequencies above 65535); (DEP) SetAACDescriptor builds the esds DecSpecificInfo from the encoded configuration and the sample entry from the same configuration. " +
-		"(W-ESC) AudioSpecificConfig.Encode can write the 24-bit explicit frequency (escape index 0xf) at as many places as DecodeAudioSpecificConfig can read one; (W-SEQ) the bit fields ADTSHeader.Encode writes after the 16 bits of sync word/ID/layer/protection are, in order, width and struct field, the fields DecodeADTSHeader reads unconditionally after its sync search (56 bits in all); the sync search loop itself (offsets, bounds) is not decided; numeric exhaustiveness over the domain belongs to another technique family."
+		"(W-REJ) DecodeAudioSpecificConfig rejects only on reader errors, the object type and frequency lookups (what Encode validates or cannot produce); (W-ESC) AudioSpecificConfig.Encode can write the 24-bit explicit frequency (escape index 0xf) at as many places as DecodeAudioSpecificConfig can read one; (W-SEQ) the bit fields ADTSHeader.Encode writes after the 16 bits of sync word/ID/layer/protection are, in order, width and struct field, the fields DecodeADTSHeader reads unconditionally after its sync search (56 bits in all); the sync search loop itself (offsets, bounds) is not decided; numeric exhaustiveness over the domain belongs to another technique family."
 	wireAssumptions(r)
 	ruleTINV(c, r, "aac", "FrequencyTable", "ReverseFrequencies")
 	ruleSpecTable(c, r, "aac", "", "FrequencyTable", [][]int64{{0, 96000}, {1, 88200}, {2, 64000}, {3, 48000}, {4, 44100}, {5, 32000}, {6, 24000}, {7, 22050}, {8, 16000}, {9, 12000}, {10, 11025}, {11, 8000}, {12, 7350}}, "ISO/IEC 14496-3 Table 1.18 (sampling frequency index)")
@@ -194,6 +194,7 @@ func checkC18(c *Ctx, r *Report) {
 	ruleAscArms(c, r)
 	ruleADTSSequence(c, r)
 	ruleEscapeSites(c, r)
+	ruleASCRejections(c, r)
 	ruleTruncReuse(c, r, "W-TRUNC", func(f *ssa.Function) bool {
 		n := SSAFuncName(f)
 		return strings.HasPrefix(n, "mp4.") || strings.HasPrefix(n, "aac.")
